@@ -315,6 +315,7 @@ func (store *Store) truncate() error {
 		if _, err := store.rw.Write(generationMarker(store.generation)); err != nil {
 			return fmt.Errorf("truncate: log generation error: %+v", err)
 		}
+		verifPoint("log.trunc.after_generation")
 	}
 	// Add command to select the current database at the top of the file.
 	// Nothing has been logged yet when the index is negative: the first write adds its own marker.
